@@ -486,4 +486,238 @@ theorem getBlock_fail_local (cfg : Cfg) (st : Store) (c : Cid) (ans : Option Blk
       | none => simp [emitted] at hx
       | some blk => simp only [] at hx; split at hx <;> simp [emitted] at hx
 
+/-! ### whole histories -/
+
+def isWrite : Ev → Bool
+  | .put _ => true
+  | .putFail _ => true
+  | .notify _ => true
+  | _ => false
+
+theorem writes_ok : ∀ (evs : List Ev) (st : Store), (∀ ev ∈ evs, isWrite ev = true) →
+    cachedOk st evs = true ∧ reqOk st evs = true ∧ emitted evs = [] := by
+  intro evs
+  induction evs with
+  | nil => intro st _; simp [cachedOk, reqOk, emitted]
+  | cons e r ih =>
+    intro st h
+    have hr := fun s => ih s (fun ev hev => h ev (by simp [hev]))
+    have he := h e (by simp)
+    cases e <;> simp [isWrite] at he <;> simp [cachedOk, reqOk, emitted, hr, (hr st).2.2]
+
+theorem addBlock_writes (cfg : Cfg) (st : Store) (o : Blk) (pf : Option Nat) :
+    ∀ ev ∈ (addBlock cfg st o pf).2.2, isWrite ev = true := by
+  intro ev hev
+  unfold addBlock at hev
+  cases hv : validate cfg.al o.1.code o.1.len <;> simp [hv] at hev
+  split at hev
+  · simp at hev
+  · split at hev
+    · simp at hev; subst hev; rfl
+    · simp at hev
+      rcases hev with hev | ⟨_, hev⟩ <;> (subst hev; rfl)
+
+theorem addBlocks_tail_writes (cfg : Cfg) (st : Store) (toput : List Blk) (pf : Option Nat) :
+    let r : Store × Res × List Ev := if toput.isEmpty then (st, .ok, [])
+      else if pf == some 0 then (st, .storeErr, toput.map .putFail)
+      else (st.putMany toput, .ok, toput.map .put ++ (if cfg.hasEx then [.notify toput] else []))
+    ∀ ev ∈ r.2.2, isWrite ev = true := by
+  intro r ev hev
+  by_cases he : toput.isEmpty = true
+  · simp [r, he] at hev
+  · by_cases hp : (pf == some 0) = true
+    · simp only [r, he, hp, Bool.false_eq_true, if_false, if_true] at hev
+      obtain ⟨b, _, rfl⟩ := List.mem_map.1 hev; rfl
+    · simp only [r, he, hp, Bool.false_eq_true, if_false] at hev
+      rcases List.mem_append.1 hev with h | h
+      · obtain ⟨b, _, rfl⟩ := List.mem_map.1 h; rfl
+      · split at h
+        · simp at h; subst h; rfl
+        · simp at h
+
+theorem addBlocks_writes (cfg : Cfg) (st : Store) (bs : List Blk) (pf : Option Nat) :
+    ∀ ev ∈ (addBlocks cfg st bs pf).2.2, isWrite ev = true := by
+  unfold addBlocks
+  cases hf : firstErr cfg.al bs with
+  | some e => simp
+  | none =>
+    by_cases hcf : cfg.checkFirst = true
+    · simp only [hcf, if_true]; exact addBlocks_tail_writes cfg st _ pf
+    · simp only [hcf, Bool.false_eq_true, if_false]; exact addBlocks_tail_writes cfg st _ pf
+
+/-! an arbitrary predicate on the ENTRIES of the store is preserved when it holds for what is written -/
+
+def allE (P : Key × Data → Prop) (st : Store) : Prop := ∀ e ∈ st, P e
+
+theorem mem_of_lookup {l : List (Key × Data)} {k : Key} {d : Data} (h : List.lookup k l = some d) : (k, d) ∈ l := by
+  induction l with
+  | nil => simp [List.lookup] at h
+  | cons e r ih =>
+    obtain ⟨a, b⟩ := e
+    simp only [List.lookup] at h
+    by_cases hk : k = a
+    · subst hk; simp at h; subst h; simp
+    · have : (k == a) = false := by simpa using hk
+      simp only [this] at h
+      simp [ih h]
+
+theorem allE_storeH {H : Key → Data → Prop} {st : Store} (h : allE (fun e => H e.1 e.2) st) : storeH H st :=
+  fun k d hg => h (k, d) (mem_of_lookup hg)
+
+theorem allE_put {P : Key × Data → Prop} {st : Store} {k : Key} {d : Data} (h : allE P st) (hk : P (k, d)) :
+    allE P (st.put k d) := by
+  unfold Store.put
+  split
+  · exact h
+  · intro e he
+    simp at he
+    rcases he with he | he
+    · exact h e he
+    · subst he; exact hk
+
+theorem allE_set {P : Key × Data → Prop} {st : Store} {k : Key} {d : Data} (h : allE P st) (hk : P (k, d)) :
+    allE P (st.set k d) := by
+  unfold Store.set
+  split
+  · intro e he
+    rw [List.mem_map] at he
+    obtain ⟨x, hx, rfl⟩ := he
+    split
+    · exact hk
+    · exact h _ hx
+  · intro e he
+    simp at he
+    rcases he with he | he
+    · exact h e he
+    · subst he; exact hk
+
+theorem allE_putMany {P : Key × Data → Prop} {st : Store} {bs : List Blk} (h : allE P st)
+    (hb : ∀ b ∈ bs, P (b.1.mh, b.2)) : allE P (st.putMany bs) := by
+  have key : ∀ (bs : List Blk) (acc : Store), allE P acc → (∀ b ∈ bs, P (b.1.mh, b.2)) →
+      allE P (bs.foldl (fun acc b => if st.has b.1.mh then acc else acc.set b.1.mh b.2) acc) := by
+    intro bs
+    induction bs with
+    | nil => intro acc ha _; exact ha
+    | cons b r ih =>
+      intro acc ha hb
+      simp only [List.foldl_cons]
+      apply ih
+      · split
+        · exact ha
+        · exact allE_set ha (hb b (by simp))
+      · intro b' hb'; exact hb b' (by simp [hb'])
+  unfold Store.putMany
+  split
+  · exact allE_put h (hb _ (by simp))
+  · exact key bs st h hb
+
+theorem allE_del {P : Key × Data → Prop} {st : Store} {k : Key} (h : allE P st) : allE P (st.del k) := by
+  intro e he
+  simp [Store.del] at he
+  exact h e he.1
+
+theorem fetchLoop_allE (P : Key × Data → Prop) (fixed : Bool) (misses : List Cid) :
+    ∀ (bs : List Blk) (st : Store) (nf pf : Option Nat), allE P st → (∀ b ∈ bs, P (b.1.mh, b.2)) →
+      allE P (fetchLoop fixed misses st nf pf bs).1 := by
+  intro bs
+  induction bs with
+  | nil => intro st nf pf hs _; simpa [fetchLoop] using hs
+  | cons x r ih =>
+    intro st nf pf hs hb
+    have hr : ∀ b ∈ r, P (b.1.mh, b.2) := fun b hb' => hb b (by simp [hb'])
+    have hput := allE_put (k := x.1.mh) (d := x.2) hs (hb x (by simp))
+    unfold fetchLoop
+    split
+    · exact ih st nf pf hs hr
+    · split
+      · exact hs
+      · split
+        · exact hput
+        · exact ih _ _ _ hput hr
+
+theorem stepOp_allE (P : Key × Data → Prop) (cfg : Cfg) (st : Store) (op : Op) (hs : allE P st)
+    (hf : faithful (fun k d => P (k, d)) op) : allE P (stepOp cfg st op).1 := by
+  cases op with
+  | add b pf =>
+    simp only [stepOp, addBlock]
+    cases validate cfg.al b.1.code b.1.len <;> simp <;> try exact hs
+    split
+    · exact hs
+    · split
+      · exact hs
+      · exact allE_put hs hf
+  | addMany bs pf =>
+    have tail : ∀ (toput : List Blk), (∀ b ∈ toput, P (b.1.mh, b.2)) →
+        allE P (if toput.isEmpty then (st, Res.ok, ([] : List Ev))
+          else if pf == some 0 then (st, .storeErr, toput.map .putFail)
+          else (st.putMany toput, .ok, toput.map .put ++ (if cfg.hasEx then [.notify toput] else []))).1 := by
+      intro toput htp
+      by_cases he : toput.isEmpty = true
+      · simp only [he, if_true]; exact hs
+      · by_cases hp : (pf == some 0) = true
+        · simp only [he, hp, Bool.false_eq_true, if_false, if_true]; exact hs
+        · simp only [he, hp, Bool.false_eq_true, if_false]; exact allE_putMany hs htp
+    simp only [stepOp, addBlocks]
+    cases firstErr cfg.al bs with
+    | some e => exact hs
+    | none =>
+      by_cases hcf : cfg.checkFirst = true
+      · simp only [hcf, if_true]
+        exact tail _ (fun b hb => hf b (List.mem_filter.1 hb).1)
+      · simp only [hcf, Bool.false_eq_true, if_false]
+        exact tail _ hf
+  | get c ans nOk pf rdOk =>
+    simp only [stepOp]
+    cases rdOk with
+    | false => rw [(getBlock_rd_false cfg st c ans nOk pf).1]; exact hs
+    | true =>
+      rcases getBlock_cases cfg st c ans nOk pf with h | ⟨blk, h, _⟩
+      · rw [h]
+        unfold getBlock
+        cases validate cfg.al c.code c.len <;> simp <;> try exact hs
+        cases st.get c.mh with
+        | some d => exact hs
+        | none =>
+          simp only []
+          split
+          · exact hs
+          · cases ans with
+            | none => exact hs
+            | some blk =>
+              simp only []
+              split
+              · exact hs
+              · cases nOk <;> exact allE_put hs (hf blk rfl)
+      · rw [h]; exact hs
+  | getMany ks ans nf pf rd =>
+    simp only [stepOp, getBlocks]
+    split
+    · exact hs
+    · cases ans with
+      | none => exact hs
+      | some bs => exact fetchLoop_allE P _ _ bs st nf pf hs (hf bs rfl)
+  | del c => exact allE_del hs
+
+theorem cachedOk_prefix (st : Store) (a b : List Ev) (h : cachedOk st (a ++ b) = true) : cachedOk st a = true := by
+  rw [cachedOk_append] at h; simp at h; exact h.1
+
+theorem reqOk_prefix (st : Store) (a b : List Ev) (h : reqOk st (a ++ b) = true) : reqOk st a = true := by
+  rw [reqOk_append] at h; simp at h; exact h.1
+
+theorem grabSession_once (hasEx sesEx : Bool) (s : Ses) : (grabSession hasEx sesEx s).1.once = true := by
+  unfold grabSession; split <;> simp_all
+
+theorem grabs_after_once (hasEx sesEx : Bool) : ∀ (n : Nat) (s : Ses), s.once = true →
+    ∀ x ∈ grabs hasEx sesEx s n, x = false := by
+  intro n
+  induction n with
+  | zero => intro s _ x hx; simp [grabs] at hx
+  | succ n ih =>
+    intro s hs x hx
+    simp only [grabs, List.mem_cons] at hx
+    have hg : grabSession hasEx sesEx s = (s, false) := by simp [grabSession, hs]
+    rcases hx with hx | hx
+    · rw [hx, hg]
+    · rw [hg] at hx; exact ih s hs x hx
+
 end C05
